@@ -121,40 +121,54 @@ theorem encodeDefault_eq_spec (p : Param) (d : PVal) : encodeDefault p d = specE
 
 /-- the default the "Set default value" block applies, if it runs -/
 def applied (skip : Bool) (p : Param) (raw : Option (List Wire)) : Option PVal :=
-  match decode p raw with
+  if p.content then none
+  else match decode p raw with
   | .nil false => if skip then none else p.dflt
   | _ => none
 
 theorem stepWith_fst (skip : Bool) (p : Param) (raw : Option (List Wire)) (st : Store) :
     (stepWith skip p raw st).1 = (match applied skip p raw with | some d => writeDefault p d st | none => st) := by
   unfold stepWith applied
-  cases decode p raw with
-  | err => rfl
-  | val => rfl
-  | nil found =>
-    cases found with
-    | true => simp
-    | false => cases skip <;> simp <;> cases p.dflt <;> rfl
+  cases hc : p.content with
+  | true => cases raw <;> rfl
+  | false =>
+    simp only [Bool.false_eq_true, ↓reduceIte]
+    cases decode p raw with
+    | err => rfl
+    | val => rfl
+    | nil found =>
+      cases found with
+      | true => simp
+      | false => cases skip <;> simp <;> cases p.dflt <;> rfl
 
 /-- the verdict does not depend on the store, only on the raw values looked up -/
 theorem stepWith_snd (skip : Bool) (p : Param) (raw : Option (List Wire)) (st st' : Store) :
     (stepWith skip p raw st).2 = (stepWith skip p raw st').2 := by
   unfold stepWith
-  cases decode p raw with
-  | err => rfl
-  | val => rfl
-  | nil found => simp only; cases (if (skip || found) = true then none else p.dflt) <;> rfl
+  cases hc : p.content with
+  | true => cases raw <;> rfl
+  | false =>
+    simp only [Bool.false_eq_true, ↓reduceIte]
+    cases decode p raw with
+    | err => rfl
+    | val => rfl
+    | nil found => simp only; cases (if (skip || found) = true then none else p.dflt) <;> rfl
 
 theorem applied_some_absent (skip : Bool) (p : Param) (raw : Option (List Wire)) (d : PVal)
-    (h : applied skip p raw = some d) : decode p raw = .nil false ∧ skip = false ∧ p.dflt = some d := by
+    (h : applied skip p raw = some d) :
+    decode p raw = .nil false ∧ skip = false ∧ p.dflt = some d ∧ p.content = false := by
   unfold applied at h
-  cases hd : decode p raw with
-  | err => simp [hd] at h
-  | val => simp [hd] at h
-  | nil found =>
-    cases found with
-    | true => simp [hd] at h
-    | false => cases skip <;> simp [hd] at h; exact ⟨rfl, rfl, h⟩
+  cases hc : p.content with
+  | true => simp [hc] at h
+  | false =>
+    simp only [hc, Bool.false_eq_true, ↓reduceIte] at h
+    cases hd : decode p raw with
+    | err => simp [hd] at h
+    | val => simp [hd] at h
+    | nil found =>
+      cases found with
+      | true => simp [hd] at h
+      | false => cases skip <;> simp [hd] at h; exact ⟨rfl, rfl, h, rfl⟩
 
 /-- once a non-empty default has been written the key is present: the block does not run again -/
 theorem applied_after_write (skip : Bool) (p : Param) (ws : List Wire) (hpath : p.loc ≠ .path) :
@@ -368,9 +382,9 @@ theorem paramStepCached_sync (skip : Bool) (view : Store) (p : Param) (st : Stor
       by_cases hq : p.loc = .query
       · -- the default block ran for a query parameter: then the cache was replaced
         exfalso
-        obtain ⟨h1, h2, h3⟩ := applied_some_absent skip p _ d ha
+        obtain ⟨h1, h2, h3, h4⟩ := applied_some_absent skip p _ d ha
         apply hc
-        simp [hq, defaultBranch, h1, h2, h3]
+        simp [hq, defaultBranch, h1, h2, h3, h4]
       · symm
         apply writeDefault_other
         intro e
@@ -392,5 +406,29 @@ theorem paramsPhaseCached_sync (skip multi : Bool) : ∀ (ps : List Param) (view
       rw [e1]
       obtain ⟨i1, i2, i3⟩ := paramsPhaseCached_sync skip multi ps _ _ e3
       exact ⟨i1, by rw [i2], i3⟩
+
+/-! ### path-item and operation parameters -/
+
+theorem keysDistinct_filter (f : Param → Bool) : ∀ (ps : List Param), keysDistinct ps = true → keysDistinct (ps.filter f) = true
+  | [], _ => rfl
+  | p :: ps, h => by
+    simp only [keysDistinct, Bool.and_eq_true, List.all_eq_true] at h
+    simp only [List.filter]
+    split
+    · simp only [keysDistinct, Bool.and_eq_true, List.all_eq_true]
+      exact ⟨fun q hq => h.1 q (List.mem_filter.mp hq).1, keysDistinct_filter f ps h.2⟩
+    · exact keysDistinct_filter f ps h.2
+
+theorem keysDistinct_append : ∀ (l1 l2 : List Param), keysDistinct l1 = true → keysDistinct l2 = true →
+    (∀ a ∈ l1, ∀ b ∈ l2, b.key ≠ a.key) → keysDistinct (l1 ++ l2) = true
+  | [], l2, _, h2, _ => h2
+  | a :: l1, l2, h1, h2, hx => by
+    simp only [keysDistinct, Bool.and_eq_true, List.all_eq_true] at h1
+    simp only [List.cons_append, keysDistinct, Bool.and_eq_true, List.all_eq_true, List.mem_append]
+    refine ⟨?_, keysDistinct_append l1 l2 h1.2 h2 (fun x hx1 b hb => hx x (by simp [hx1]) b hb)⟩
+    intro q hq
+    rcases hq with hq | hq
+    · exact h1.1 q hq
+    · simpa using hx a (by simp) q hq
 
 end KinModel.C13.Params
